@@ -278,7 +278,10 @@ func normalize(opts *options, from interface{}) (*Config, Error) {
 
 	switch vFrom.Type() {
 	case tConfig:
-		return vFrom.Addr().Interface().(*Config), nil
+		// a Config passed by value is not addressable, tryTConfig copies it
+		if v, ok := tryTConfig(vFrom); ok {
+			return v.Addr().Interface().(*Config), nil
+		}
 	case tConfigMap:
 		return normalizeMap(opts, vFrom)
 	default:
